@@ -16,6 +16,7 @@ use chumsky::prelude::{any, choice, end, just, one_of};
 use chumsky::text::whitespace;
 use chumsky::{Boxed, IterParser, Parser, extra, text};
 use itertools::Itertools;
+use std::str::FromStr;
 
 pub const VAR_COMMAND: &str = "var";
 pub const VAR_DEBUG_COMMAND: &str = "vard";
@@ -106,6 +107,17 @@ pub fn hex<'a>() -> impl chumsky::Parser<'a, &'a str, usize, Err<'a>> + Clone {
         .labelled("hexidecimal number")
 }
 
+/// Decimal number that fits into type `T`, a number out of range of `T` is a syntax error.
+pub fn number<'a, T>() -> impl chumsky::Parser<'a, &'a str, T, Err<'a>> + Clone
+where
+    T: FromStr,
+    T::Err: ToString,
+{
+    text::int(10)
+        .from_str::<T>()
+        .try_map(|number, span| number.map_err(|e| Rich::custom(span, e)))
+}
+
 pub fn rust_identifier<'a>() -> impl chumsky::Parser<'a, &'a str, &'a str, Err<'a>> + Clone {
     text::ascii::ident()
         .separated_by(just("::"))
@@ -128,15 +140,13 @@ pub fn brkpt_at_line_parser<'a>() -> impl chumsky::Parser<'a, &'a str, Breakpoin
         .repeated()
         .to_slice()
         .then_ignore(just(':'))
-        .then(text::int(10).from_str().unwrapped())
+        .then(number())
         .map(|(file, line): (&str, u64)| BreakpointIdentity::Line(file.trim().to_string(), line))
         .padded()
 }
 
 pub fn brkpt_number<'a>() -> impl chumsky::Parser<'a, &'a str, BreakpointIdentity, Err<'a>> {
-    text::int(10)
-        .from_str()
-        .unwrapped()
+    number()
         .map(|number: u32| BreakpointIdentity::Number(number))
         .padded()
 }
@@ -342,9 +352,7 @@ impl Command {
                     .to(Command::SourceCode(source_code::Command::Asm)),
                 sub_op(SOURCE_COMMAND_FUNCTION_SUBCOMMAND)
                     .to(Command::SourceCode(source_code::Command::Function)),
-                text::int(10)
-                    .from_str()
-                    .unwrapped()
+                number()
                     .map(|num| Command::SourceCode(source_code::Command::Range(num)))
                     .padded(),
             )))
@@ -399,9 +407,7 @@ impl Command {
             .ignore_then(choice((
                 sub_op2_w_arg(WATCH_REMOVE_SUBCOMMAND, WATCH_REMOVE_SUBCOMMAND_SHORT)
                     .ignore_then(choice((
-                        text::int(10)
-                            .from_str()
-                            .unwrapped()
+                        number()
                             .map(|number: u32| WatchpointIdentity::Number(number))
                             .padded(),
                         watchpoint_at_address(),
@@ -459,9 +465,7 @@ impl Command {
                 sub_op(THREAD_COMMAND_CURRENT_SUBCOMMAND)
                     .to(Command::Thread(thread::Command::Current)),
                 sub_op_w_arg(THREAD_COMMAND_SWITCH_SUBCOMMAND)
-                    .ignore_then(text::int(10))
-                    .from_str()
-                    .unwrapped()
+                    .ignore_then(number())
                     .map(|num| Command::Thread(thread::Command::Switch(num)))
                     .padded(),
             )))
@@ -471,7 +475,7 @@ impl Command {
             .ignore_then(choice((
                 sub_op(FRAME_COMMAND_INFO_SUBCOMMAND).to(Command::Frame(frame::Command::Info)),
                 sub_op(FRAME_COMMAND_SWITCH_SUBCOMMAND)
-                    .ignore_then(text::int(10).from_str().unwrapped())
+                    .ignore_then(number())
                     .map(|num| Command::Frame(frame::Command::Switch(num)))
                     .padded(),
             )))
@@ -527,18 +531,14 @@ impl Command {
                         trigger::Command::AttachToDefined(trigger::TriggerEvent::Any),
                     ),
                     sub_op(TRIGGER_COMMAND_BRKPT_TRIGGER_SUBCOMMAND)
-                        .ignore_then(text::int(10))
-                        .from_str()
-                        .unwrapped()
+                        .ignore_then(number())
                         .map(|num| {
                             trigger::Command::AttachToDefined(trigger::TriggerEvent::Breakpoint(
                                 num,
                             ))
                         }),
                     sub_op(TRIGGER_COMMAND_WP_TRIGGER_SUBCOMMAND)
-                        .ignore_then(text::int(10))
-                        .from_str()
-                        .unwrapped()
+                        .ignore_then(number())
                         .map(|num| {
                             trigger::Command::AttachToDefined(trigger::TriggerEvent::Watchpoint(
                                 num,
@@ -1102,6 +1102,22 @@ fn test_parser() {
         TestCase {
             inputs: vec!["oracle tokio all ", " oracle  tokio   all"],
             expected: Expect::Ok(Command::Oracle("tokio".into(), Some("all".into()))),
+        },
+        TestCase {
+            inputs: vec![
+                "thread switch 4294967296",
+                "frame switch 4294967296",
+                "trigger b 4294967296",
+                "trigger w 4294967296",
+                "watch remove 4294967296",
+                "source 18446744073709551616",
+                "var a[18446744073709551616]",
+            ],
+            expected: Expect::Err,
+        },
+        TestCase {
+            inputs: vec!["thread switch 4294967295"],
+            expected: Expect::Ok(Command::Thread(thread::Command::Switch(u32::MAX))),
         },
     ];
 
